@@ -35,7 +35,8 @@ RULE = (
     "case = a strict converter whose URI prefixes are valid IRI text (records with 0-2 URI-prefix synonyms, nested "
     "prefixes), optionally with configured predicates. (a) MappingServiceGraph.query through the custom processor: ?s "
     "bound or ?o bound, VALUES inside or after WHERE, configured and foreign predicates, 1-3 recognised and unrecognised "
-    "URIs; bindings compared, as a multiset (single predicate) or set (several), with the model's expand_all(compress(u)). "
+    "URIs (in every second case the converter behind the live graph and apps grows between queries: a URI-prefix synonym "
+    "merged into an existing record, a new record); bindings compared, as a multiset (single predicate) or set (several), with the model's expand_all(compress(u)). "
     "(b) the same queries through Flask GET and POST and FastAPI GET and POST, response bodies parsed by harness-own JSON / XML / "
     "CSV readers; all legs must equal the model. (c) content negotiation: generated RFC 7231 Accept headers (supported, "
     "synonym and unsupported media types, q-values, optional whitespace around ',' and ';') given to handle_header "
@@ -137,6 +138,7 @@ def run_case(ctx, g, rng):
     allu = [u for r in recs for u in spec.all_u(r)]
 
     def make_query():
+        sp = spec.SpecConverter(list(spec.snapshot(conv)), ":")
         k = rng.randint(1, 3)
         uris = []
         for _ in range(k):
@@ -182,7 +184,19 @@ def run_case(ctx, g, rng):
                       configured_predicates=conf, **(extra or {}), **w0)
 
     # (a) graph level
-    for _ in range(6):
+    for qi in range(8):
+        if qi == 5 and g % 2 == 0:
+            # the converter behind the live graph grows: a URI-prefix synonym merged into an existing record
+            # (one that has usually been queried already) and a brand-new record
+            r0 = recs[0]
+            call(conv.add_prefix, r0.prefix, r0.uri_prefix, None, [ups.pop()], merge=True)
+            call(conv.add_prefix, "late", "http://late.org/")
+            recs[:] = list(spec.snapshot(conv))
+            sp = spec.SpecConverter(recs, ":")
+            allu[:] = [u for r in recs for u in spec.all_u(r)]
+            w0["records"] = [spec.rec_dict(r) for r in recs]
+            w0["grown_while_serving"] = True
+            S.counters["wl:converters-grown-while-serving"] += 1
         q, exp, direction, inside, configured, cls, uris = make_query()
         o = call(graph.query, q, processor=processor)
         if o[0] == "raise":
@@ -199,7 +213,17 @@ def run_case(ctx, g, rng):
     fa = TestClient(get_fastapi_mapping_app(conv)) if preds is None else None
     if fl is not None:
         conf = [OWL_SAMEAS]
-        for _ in range(3):
+        for wi in range(4):
+            if wi == 2 and g % 2 == 1:
+                # the same growth, this time while the web apps are serving
+                r0 = recs[0]
+                call(conv.add_prefix, r0.prefix, r0.uri_prefix, None, [ups.pop()], merge=True)
+                call(conv.add_prefix, "late", "http://late.org/")
+                recs[:] = list(spec.snapshot(conv))
+                allu[:] = [u for r in recs for u in spec.all_u(r)]
+                w0["records"] = [spec.rec_dict(r) for r in recs]
+                w0["grown_while_serving"] = True
+                S.counters["wl:converters-grown-while-serving"] += 1
             q, exp, direction, inside, configured, cls, uris = make_query()
             header, n, has_q, has_ws = gen_header(rng)
             acceptable = negotiate(header)
